@@ -472,7 +472,7 @@ var spEdits = []string{"dupOperationID", "dropPathParam", "renamePathParam", "ex
 	"repeatPlaceholder", "emptyPlaceholder", "dupParam", "secondBody", "bodyAndForm", "arrayNoItemsParam", "arrayNoItemsHeader",
 	"arrayNoItemsSchema", "nestedItemsNoItems", "requiredUndefined", "requiredViaAdditional", "dupInheritedProperty",
 	"circularAncestry", "overlapPaths", "badPatternParam", "badPatternHeader", "badPatternSchema", "badPatternItems",
-	"unresolvedSchemaRef", "unresolvedParamRef", "noPaths", "emptyPaths", "bodyViaSharedParam", "noResponses"}
+	"unresolvedSchemaRef", "unresolvedParamRef", "noPaths", "emptyPaths", "bodyViaSharedParam", "noResponses", "refWithSiblingDefault"}
 
 func (g *spgen) applyEdit(doc M, kind string) bool {
 	ops := docOps(doc)
@@ -767,6 +767,23 @@ func (g *spgen) applyEdit(doc M, kind string) bool {
 			return false
 		}
 		o.op["parameters"] = append(params(o), M{"$ref": "#/parameters/nowhere"})
+		return true
+	case "refWithSiblingDefault":
+		// breaks no rule: an allOf member that is a $ref with a sibling default, the target having its own (valid) default;
+		// validators must not expand that reference inside the caller's document (C12)
+		defs, _ := doc["definitions"].(M)
+		if defs == nil {
+			defs = M{}
+			doc["definitions"] = defs
+		}
+		defs["SibBase"] = M{"type": "object", "properties": M{"k": M{"type": "integer", "default": 3}}, "default": M{"k": 1}}
+		defs["SibChild"] = M{"allOf": L{M{"$ref": "#/definitions/SibBase", "default": M{"k": 2}}, M{"type": "object", "properties": M{"n": M{"type": "string"}}}}}
+		if o, ok := pickOp(); ok {
+			rs, _ := o.op["responses"].(M)
+			if rs != nil {
+				rs["200"] = M{"description": "d", "schema": M{"$ref": "#/definitions/SibChild"}}
+			}
+		}
 		return true
 	case "noPaths":
 		delete(doc, "paths")
